@@ -253,8 +253,15 @@ func ruleBatchStride(e *Engine, r *Reporter) {
 
 // tupleIdentityColumns: the columns by which the write path identifies a tuple of backend be
 // (keys of the sq.Eq literals that are appended to the DELETE's sq.Or).
-func (e *Engine) tupleIdentityColumns(fn *ssa.Function) map[string]bool {
+func (e *Engine) tupleIdentityColumns(fn0 *ssa.Function) map[string]bool {
 	out := map[string]bool{}
+	for _, fn := range sameePackageRegion(fn0, 1) { // the write path and the stage helpers it is split into
+		e.tupleIdentityColumnsIn(fn, out)
+	}
+	return out
+}
+
+func (e *Engine) tupleIdentityColumnsIn(fn *ssa.Function, out map[string]bool) map[string]bool {
 	eachInstr(fn, true, func(in ssa.Instruction) {
 		c, ok := in.(*ssa.Call)
 		if !ok {
